@@ -474,7 +474,12 @@ def c11_6(ctx: Ctx) -> RuleResult:
     for run in step_run_methods(ctx):
         c = run.cls
         # the payload may be assembled in a method of the step or in a helper of its module
-        for m in list(c.methods.values()) + [g for g in ctx.repo.funcs_in(c.module.name) if g.cls is None and g.outer is None]:
+        cands = list(c.methods.values()) + [g for g in ctx.repo.funcs_in(c.module.name) if g.cls is None and g.outer is None]
+        # ... or in a private helper of a sibling module that the step calls (shared by both steps)
+        for g in ctx.cg.reachable(list(c.methods.values()), include_nested_values=False):
+            if g.cls is None and g.outer is None and g not in cands and g.name.startswith("_") and g.module.name.rsplit(".", 1)[0] == c.module.name.rsplit(".", 1)[0]:
+                cands.append(g)
+        for m in cands:
             from ..util import bool_nnf, path_condition
 
             def lits_at(stmt):
